@@ -31,23 +31,18 @@ theorem skel_errlog_Abort : skel abortSkel [] = errlog_Abort := by decide
 
 theorem skel_asa_ApplyCommands : skel asaApplyBody [] = asa_ApplyCommands := by decide
 theorem skel_asa_cmd (ρ : Role) (t : Txt) : skel (asaCmdBody ρ t) [] = asa_cmd := by rfl
-theorem skel_asa_cmd_check (ρ : Role) : skel (asaCheckBody ρ) [] = asa_cmd_check := by rfl
 theorem skel_asa_CloseConnection : skel (Backend.closeConnectionBody .asa) [] = asa_CloseConnection := by decide
 
 theorem skel_ios_ApplyCommands : skel iosApplyBody [] = ios_ApplyCommands := by decide
 theorem skel_ios_cmd (ρ : Role) (t : Txt) : skel (iosCmdBody ρ t) [] = ios_cmd := by rfl
-theorem skel_ios_cmd_check (ρ : Role) : skel (iosCheckBody ρ) [] = ios_cmd_check := by rfl
 theorem skel_ios_writeMem : skel iosWriteMemBody [] = ios_writeMem := by decide
 theorem skel_ios_prepareDevice : skel iosPrepareDeviceBody [] = ios_prepareDevice := by decide
-theorem skel_ios_scheduleReload : skel (iosSendReloadCmd false) [] = ios_scheduleReload := by decide
-theorem skel_ios_extendReload : skel (iosSendReloadCmd true) [] = ios_extendReload := by decide
 theorem skel_ios_sendReloadCmd (d : Bool) : skel (iosSendReloadCmdBody d) [] = ios_sendReloadCmd := by cases d <;> rfl
 theorem skel_ios_cancelReload : skel iosCancelReloadBody [] = ios_cancelReload := by decide
 theorem skel_ios_CloseConnection : skel (Backend.closeConnectionBody .ios) [] = ios_CloseConnection := by decide
 
 theorem skel_linux_ApplyCommands : skel linuxApplyBody [] = linux_ApplyCommands := by decide
 theorem skel_linux_cmd (ρ : Role) (t : Txt) : skel (linuxCmdBody ρ t) [] = linux_cmd := by rfl
-theorem skel_linux_cmd_check (ρ : Role) : skel (linuxCheckBody ρ) [] = linux_cmd_check := by rfl
 theorem skel_linux_writeStartupRouting : skel linuxWriteStartupRoutingBody [] = linux_writeStartupRouting := by decide
 theorem skel_linux_writeStartupIPTables : skel linuxWriteStartupIPTablesBody [] = linux_writeStartupIPTables := by decide
 theorem skel_linux_findIPTablesRestoreCmd : skel linuxFindRestoreBody [] = linux_findIPTablesRestoreCmd := by decide
@@ -125,7 +120,6 @@ def covered : List (String × List Site) := [
   ("httpdevice_TryReachableHTTPLogin", skel (tryReachableBody .skip) []),
   ("asa_ApplyCommands", skel asaApplyBody []),
   ("asa_cmd", skel (asaCmdBody .change .cur) []),
-  ("asa_cmd_check", skel (asaCheckBody .change) []),
   ("asa_CloseConnection", skel (Backend.closeConnectionBody .asa) []),
   ("asa_LoadDevice", skel asaLoadDevice []),
   ("asa_setTerminal", skel asaSetTerminal []),
@@ -133,11 +127,8 @@ def covered : List (String × List Site) := [
   ("asa_checkDeviceName", skel asaCheckDeviceNameBody []),
   ("ios_ApplyCommands", skel iosApplyBody []),
   ("ios_cmd", skel (iosCmdBody .change .cur) []),
-  ("ios_cmd_check", skel (iosCheckBody .change) []),
   ("ios_writeMem", skel iosWriteMemBody []),
   ("ios_prepareDevice", skel iosPrepareDeviceBody []),
-  ("ios_scheduleReload", skel (iosSendReloadCmd false) []),
-  ("ios_extendReload", skel (iosSendReloadCmd true) []),
   ("ios_sendReloadCmd", skel (iosSendReloadCmdBody false) []),
   ("ios_cancelReload", skel iosCancelReloadBody []),
   ("ios_CloseConnection", skel (Backend.closeConnectionBody .ios) []),
@@ -147,7 +138,6 @@ def covered : List (String × List Site) := [
   ("ios_checkDeviceName", skel iosCheckDeviceNameBody []),
   ("linux_ApplyCommands", skel linuxApplyBody []),
   ("linux_cmd", skel (linuxCmdBody .change .cur) []),
-  ("linux_cmd_check", skel (linuxCheckBody .change) []),
   ("linux_writeStartupRouting", skel linuxWriteStartupRoutingBody []),
   ("linux_writeStartupIPTables", skel linuxWriteStartupIPTablesBody []),
   ("linux_findIPTablesRestoreCmd", skel linuxFindRestoreBody []),
